@@ -2,6 +2,8 @@
 package router_address
 
 import (
+	"strings"
+
 	"github.com/go-i2p/logger"
 	"github.com/samber/oops"
 
@@ -130,6 +132,14 @@ func parseTransportOptions(ra *RouterAddress, routerData []byte) ([]byte, error)
 	ra.TransportOptions = transportOptions
 	if transportOptions == nil && len(errs) > 0 {
 		return remainder, oops.Errorf("error parsing RouterAddress options: %v", errs[0])
+	}
+	// An address is followed by further data inside a RouterInfo, so the warning
+	// that bytes exist beyond the mapping is expected; every other mapping error
+	// (truncated or malformed options) means the address itself is not complete.
+	for _, err := range errs {
+		if !strings.Contains(err.Error(), "data exists beyond length of mapping") {
+			return remainder, oops.Errorf("error parsing RouterAddress options: %v", err)
+		}
 	}
 	return remainder, nil
 }
